@@ -833,6 +833,18 @@ func checkDoc(res *lib.Result, drv *lib.Drv, real bool, c docCase, rng *lib.Rand
 		if kv["doc"] != encx.Hex(o.doc) {
 			res.Disagree("Encrypt(real) = Kit.Enc.specEncrypt over Lean-native primitives (bytes)", c, summarize(kv["doc"]), summarize(encx.Hex(o.doc)))
 		}
+		// the README-only Lean decoder (specDecrypt) opens the real document
+		if len(o.doc) <= 4*65552+400 {
+			ans, err = drv.Ask(fmt.Sprintf("specdec fk=%s data=%s", encx.Hex(o.fk), encx.Hex(o.doc)))
+			if err != nil {
+				res.Disagree("driver-alive", c, err.Error(), "")
+				return
+			}
+			res.Traces++
+			if ans != "out="+encx.Hex(p) {
+				res.Disagree("Kit.Enc.specDecrypt (README-only decoder) opens Encrypt(real)", c, summarize(ans), "out="+summarize(encx.Hex(p)))
+			}
+		}
 		// and the Lean implementation-shaped decryptor opens the real document under the same script
 		mid := c.Mid
 		mid.Data = o.doc
